@@ -194,9 +194,10 @@ impl RngCore for ReplayRng {
         match self.chunks.pop_front() {
             Some(c) if c.len() == dest.len() => dest.copy_from_slice(&c),
             _ => {
+                // (zeros, not 0xff: arkworks samples by rejection, and an all-ones candidate is rejected for ever)
                 self.ok = false;
                 for d in dest.iter_mut() {
-                    *d = 0xff
+                    *d = 0
                 }
             }
         }
